@@ -1,6 +1,9 @@
 package checks
 
 import (
+	"encoding/base32"
+	"encoding/base64"
+	"encoding/hex"
 	"fmt"
 	"os"
 	"strings"
@@ -168,9 +171,9 @@ func c20Replacements() []struct {
 }
 
 func TestC20_EnvelopeGrid(t *testing.T) {
-	st := NewStats("C20", "TestC20_EnvelopeGrid", "enumeration with the independent encoder around correctly signed material (7 algorithms in thorough, EdDSA+ES256 in quick; both profiles): tag in {none, 0..30, 61, 98, 18 nested twice} x array length 0..6; each of the four elements replaced by 20 other CBOR items and by indefinite-length / over-long-head forms; 2-element replacement pairs; 18 payload variants (raw map, double-wrapped, null, h'', h'f6', h'f7', array, int, text, tagged map, map+trailing, two maps, truncated map, ...) plus 19 tag numbers of every head width (incl. numbers whose last byte looks like a map head) x 8 tagged contents (null, undefined, array, int, bstr, text, map, tagged null); 0..3 trailing bytes; non-minimal tag/array heads; the TF-M Mac0 and Sign1 vectors and their tag-swapped variants. Every envelope is also given to Evidence objects with a past (decoded a good token / had claims attached / signed, possibly followed by a failed decode of garbage, a Mac0, a truncated token, a non-map payload), which must agree with a fresh decode. Oracle: DecodeEvidenceFromCOSE / UnmarshalCOSE success implies the independent classifier sees tag 18, 4-array, bstr, map, bstr holding exactly one map item, non-empty bstr, no trailing bytes. Non-trivial = still parses as CBOR and differs from a valid envelope in exactly one structural respect; distinct = grid cell")
+	st := NewStats("C20", "TestC20_EnvelopeGrid", "enumeration with the independent encoder around correctly signed material (7 algorithms in thorough, EdDSA+ES256 in quick; both profiles): tag in {none, 0..30, 61, 98, 18 nested twice} x array length 0..6; each of the four elements replaced by 20 other CBOR items and by indefinite-length / over-long-head forms; 2-element replacement pairs; 18 payload variants (raw map, double-wrapped, null, h'', h'f6', h'f7', array, int, text, tagged map, map+trailing, two maps, truncated map, ...) plus 19 tag numbers of every head width (incl. numbers whose last byte looks like a map head) x 8 tagged contents (null, undefined, array, int, bstr, text, map, tagged null); 0..3 trailing bytes; the correct envelope in 13 text transport encodings (base64 in four alphabets, hex, data URI, base32, diagnostic notation, ...); 14 content-type / typ header values in either bucket x 6 payloads (claims as JSON text, '{}', 'null', base64 / hex of the claims, the claims map) each correctly signed; non-minimal tag/array heads; the TF-M Mac0 and Sign1 vectors and their tag-swapped variants. Every envelope is also given to Evidence objects with a past (decoded a good token / had claims attached / signed, possibly followed by a failed decode of garbage, a Mac0, a truncated token, a non-map payload), which must agree with a fresh decode. Oracle: DecodeEvidenceFromCOSE / UnmarshalCOSE success implies the independent classifier sees tag 18, 4-array, bstr, map, bstr holding exactly one map item, non-empty bstr, no trailing bytes. Non-trivial = still parses as CBOR and differs from a valid envelope in exactly one structural respect; distinct = grid cell")
 	st.Exhaustive = true
-	st.Require = []string{"accepted", "rejected", "tag", "arity", "element", "payload", "trailing", "vector"}
+	st.Require = []string{"accepted", "rejected", "tag", "arity", "element", "payload", "trailing", "vector", "transcoded", "header-x-payload"}
 	defer st.Flush(t)
 	accepted := 0
 	run := func(desc, class string, tok []byte, nontrivial bool) {
@@ -357,6 +360,60 @@ func TestC20_EnvelopeGrid(t *testing.T) {
 				e[2] = icbor.Bstr(pl)
 				e[3] = icbor.Bstr(sigOver(pl))
 				run(pre+"payload="+name, "payload", icbor.Encode(icbor.Tag(18, icbor.Arr(e...))), true)
+			}
+			// the (correct) envelope in a TEXT transport encoding: base64 in its
+			// four alphabets / paddings, hex, with line breaks or a data: prefix
+			for name, txt := range map[string]string{
+				"base64-std":       base64.StdEncoding.EncodeToString(good),
+				"base64-std-raw":   base64.RawStdEncoding.EncodeToString(good),
+				"base64-url":       base64.URLEncoding.EncodeToString(good),
+				"base64-url-raw":   base64.RawURLEncoding.EncodeToString(good),
+				"base64-std+nl":    base64.StdEncoding.EncodeToString(good) + "\n",
+				"base64-quoted":    "\"" + base64.StdEncoding.EncodeToString(good) + "\"",
+				"base64-of-base64": base64.StdEncoding.EncodeToString([]byte(base64.StdEncoding.EncodeToString(good))),
+				"hex":              hex.EncodeToString(good),
+				"HEX":              strings.ToUpper(hex.EncodeToString(good)),
+				"0x-hex":           "0x" + hex.EncodeToString(good),
+				"data-uri":         "data:application/eat+cwt;base64," + base64.StdEncoding.EncodeToString(good),
+				"base32":           base32.StdEncoding.EncodeToString(good),
+				"diag":             icbor.Diag(icbor.Tag(18, icbor.Arr(elems()...))),
+			} {
+				run(pre+"transcoded="+name, "transcoded", []byte(txt), true)
+			}
+			// header parameters that describe the payload (content type, typ,
+			// crit) in either bucket x payloads that are not a CBOR claims map
+			// (the claims as JSON text, "{}", the claims map itself): a header
+			// must not turn a non-map payload into an acceptable one
+			var jsonClaims []byte
+			if lit, ok := baseValid(p, ai%3).BuildLiteral(); ok {
+				jsonClaims, _ = psatoken.EncodeClaimsToJSON(lit)
+			}
+			for hi, hv := range []*icbor.Node{
+				icbor.Tstr("application/json"), icbor.Tstr("application/eat-ucs+json"), icbor.Tstr("application/eat+json"), icbor.Tstr("APPLICATION/JSON; charset=utf-8"),
+				icbor.U(50), icbor.U(60), icbor.U(0), icbor.U(61), icbor.U(263), icbor.Tstr("application/cbor"), icbor.Tstr("application/eat+cwt"), icbor.Tstr("text/plain"), icbor.Tstr("JWT"), icbor.Tstr("application/octet-stream"),
+			} {
+				for _, label := range []uint64{3, 16} {
+					for bucket := 0; bucket < 2; bucket++ {
+						for pi, pl := range [][]byte{jsonClaims, []byte("{}"), []byte("null"), []byte(base64.StdEncoding.EncodeToString(claims)), []byte(hex.EncodeToString(claims)), claims} {
+							if len(pl) == 0 {
+								continue
+							}
+							protMap, unprot := icbor.Map(icbor.P(icbor.U(1), icbor.I(alg))), icbor.Map()
+							if bucket == 0 {
+								protMap.Pairs = append(protMap.Pairs, icbor.P(icbor.U(label), hv.Clone()))
+							} else {
+								unprot.Pairs = append(unprot.Pairs, icbor.P(icbor.U(label), hv.Clone()))
+							}
+							pb := icbor.Encode(protMap)
+							sg, serr := icose.Sign(alg, kp.Priv, pb, pl)
+							if serr != nil {
+								t.Fatalf("VERIF-INFRA: %v", serr)
+							}
+							tok := icbor.Encode(icbor.Tag(18, icbor.Arr(icbor.Bstr(pb), unprot, icbor.Bstr(pl), icbor.Bstr(sg))))
+							run(fmt.Sprintf("%sheader%d=#%d/bucket%d/payload#%d", pre, label, hi, bucket, pi), "header-x-payload", tok, pi < 5)
+						}
+					}
+				}
 			}
 			// trailing bytes
 			for _, tr := range [][]byte{{0x00}, {0xff}, {0xf6}, {0x00, 0x00}, {0xd2, 0x84}, {0x40, 0xa0, 0x40}} {
